@@ -377,6 +377,7 @@ func generate(repo, out string) error {
 	var tables, kernels, kasts []string
 	colPkgs := []string{"icolumn", "fcolumn", "bcolumn", "scolumn", "ecolumn"}
 	pkgFns := map[string]map[string]*ast.FuncDecl{}
+	pkgImports := map[string]map[string]string{}
 	for _, p := range colPkgs {
 		files := parseDir(filepath.Join(repo, "internal", p))
 		mt := mapTables(files, fconsts)
@@ -397,6 +398,7 @@ func generate(repo, out string) error {
 		}
 		fns := funcDecls(files)
 		pkgFns[p] = fns
+		pkgImports[p] = importsOf(files)
 		fnames := make([]string, 0, len(fns))
 		for n := range fns {
 			fnames = append(fnames, n)
@@ -623,6 +625,11 @@ func generate(repo, out string) error {
 		return err
 	}
 
+	// 4i. the per-cell observation functions (Equals, StringAt, AppendByteStringAt) as terms of QF.EQ / QF.RE (oast.go)
+	if err := writeIfChanged(filepath.Join(out, "Observe.lean"), []byte(observeLean(colPkgs, pkgFns, pkgImports, ecol))); err != nil {
+		return err
+	}
+
 	// 4g. the guard prefixes of the projection operations as terms of QF.GStep (gast.go)
 	if err := writeIfChanged(filepath.Join(out, "Guards.lean"), []byte(guardsLean(root, strs))); err != nil {
 		return err
@@ -665,7 +672,7 @@ func generate(repo, out string) error {
 	}
 	rfns := funcDecls(ryu)
 	rb.WriteString("\n/-- small helpers of the Ryu core as source text -/\ndef ryuFacts : List (String × String) := [\n")
-	rnames := []string{"log10Pow2", "log10Pow5", "pow5Bits", "mulShift64", "shiftRight128", "pow5Factor64", "multipleOfPowerOfFive64", "multipleOfPowerOfTwo64", "decimalLen64", "sizeSlice", "float64ToDecimalExactInt", "dec64.appendF", "AppendFloat64f", "appendSpecialf"}
+	rnames := []string{"log10Pow2", "log10Pow5", "pow5Bits", "mulShift64", "shiftRight128", "pow5Factor64", "multipleOfPowerOfFive64", "multipleOfPowerOfTwo64", "decimalLen64", "sizeSlice", "float64ToDecimalExactInt", "float64ToDecimal", "dec64.appendF", "AppendFloat64f", "appendSpecialf"}
 	for i, n := range rnames {
 		if i > 0 {
 			rb.WriteString(",\n")
